@@ -4,7 +4,9 @@ package simrt
 
 import (
 	"fmt"
+	"runtime"
 	"sort"
+	"strconv"
 	_ "unsafe" // for linkname
 )
 
@@ -16,18 +18,29 @@ import (
 //	go func() { simrt.Park(id, site); <original call> }()
 //	simrt.Yield(site)
 //
-// In a bubble world (Config.Bubble) the whole world runs inside a
-// runtime synctest bubble (internal/synctest, reached by linkname; the scratch
-// build passes -ldflags=-checklinkname=0). Spawned goroutines and the yielding
-// parent park on private channels; one scheduler goroutine waits until every
-// other goroutine of the bubble is durably blocked (synctest.Wait), then
-// releases exactly one parked goroutine, chosen by the world's PRNG (choice
-// kind "gosched"). Released goroutines run until they finish, park again or
-// block durably, so the interleaving is a sequence of coarse, non-preemptive
-// steps fully determined by the choice log: replayable and shrinkable.
-// Decision 0 = the parked goroutine with the lowest id = spawn order.
+// puts a yield in front of every channel send statement, and replaces
+// mu.Lock() / mu.Unlock() (sync.Mutex, sync.RWMutex, also RLock / RUnlock) by
+// cooperative versions (simrt.Lock / Unlock ...).
 //
-// Outside bubble worlds the three calls are no-ops and `go` behaves natively.
+// In a bubble world (Config.Bubble) the whole world runs inside a runtime
+// synctest bubble (internal/synctest, reached by linkname; the scratch build
+// passes -ldflags=-checklinkname=0). A goroutine that reaches a yield point
+// parks on a private channel; one scheduler goroutine waits until every other
+// goroutine of the bubble is parked or durably blocked (synctest.Wait), then
+// releases exactly one eligible parked goroutine, chosen by the world's PRNG
+// (choice kind "gosched"). Released goroutines run until they finish, reach
+// the next yield point or block durably, so the interleaving — in particular
+// the order in which critical sections are entered and values are sent — is a
+// sequence of coarse steps fully determined by the choice log: replayable and
+// shrinkable. Parked goroutines are ordered by (spawn id, per-goroutine yield
+// count), which does not depend on timing; decision 0 = the first in that
+// order = "oldest goroutine first".
+//
+// A goroutine that fails to TryLock parks as a waiter of that mutex and only
+// becomes eligible again when the mutex is unlocked, so a parked holder can
+// never stall the bubble.
+//
+// Outside bubble worlds all of this degenerates to the native operations.
 
 //go:linkname synctestRun internal/synctest.Run
 func synctestRun(f func())
@@ -36,23 +49,49 @@ func synctestRun(f func())
 func synctestWait()
 
 type parkedG struct {
-	id   int
-	site string
-	ch   chan struct{}
+	id      int
+	seq     int
+	site    string
+	ch      chan struct{}
+	waitsOn any // a mutex this goroutine could not lock; nil = eligible
+}
+
+type simG struct {
+	id  int
+	seq int
 }
 
 type goState struct {
 	active bool
-	parked []parkedG
+	parked []*parkedG
 	nextID int
-	wake   chan struct{}
-	done   chan struct{}
-	fin    bool
+	byGoid map[uint64]*simG
+	wake    chan struct{}
+	done    chan struct{}
+	fin     bool
+	retries int
 }
 
 var gs goState
 
-// Spawn allocates the id of a goroutine about to be started.
+// goid parses the current goroutine's id out of its stack header. Slow, and
+// only used inside bubble worlds.
+func goid() uint64 {
+	var buf [64]byte
+	n := runtime.Stack(buf[:], false)
+	// "goroutine 123 [running]:"
+	s := buf[:n]
+	const p = len("goroutine ")
+	i := p
+	for i < len(s) && s[i] >= '0' && s[i] <= '9' {
+		i++
+	}
+	id, _ := strconv.ParseUint(string(s[p:i]), 10, 64)
+	return id
+}
+
+// Spawn allocates the id of a goroutine about to be started. It runs in the
+// parent, i.e. while the parent holds the baton, so ids are deterministic.
 func Spawn(site string) int {
 	s.mu.Lock()
 	defer s.mu.Unlock()
@@ -60,15 +99,24 @@ func Spawn(site string) int {
 	return gs.nextID
 }
 
-// Park is the first thing a spawned goroutine does.
-func Park(id int, site string) {
-	s.mu.Lock()
-	if !gs.active {
-		s.mu.Unlock()
-		return
+func (g *goState) me() *simG {
+	id := goid()
+	if sg, ok := g.byGoid[id]; ok {
+		return sg
 	}
+	// a goroutine the rewriter never saw being started (library code): give it
+	// an id of its own; rare, and outside what the choice log can pin down
+	g.nextID++
+	sg := &simG{id: 1<<20 + g.nextID}
+	g.byGoid[id] = sg
+	return sg
+}
+
+// park blocks the calling goroutine until the scheduler releases it.
+func park(site string, sg *simG, waitsOn any) {
 	ch := make(chan struct{})
-	gs.parked = append(gs.parked, parkedG{id, site, ch})
+	sg.seq++
+	gs.parked = append(gs.parked, &parkedG{id: sg.id, seq: sg.seq, site: site, ch: ch, waitsOn: waitsOn})
 	wake := gs.wake
 	s.mu.Unlock()
 	select {
@@ -78,25 +126,139 @@ func Park(id int, site string) {
 	<-ch
 }
 
-// Yield parks the running goroutine right after it started another one, so
-// that the scheduler may run the child before the parent's next statement.
+// Park is the first thing a spawned goroutine does.
+func Park(id int, site string) {
+	s.mu.Lock()
+	if !gs.active {
+		s.mu.Unlock()
+		return
+	}
+	sg := &simG{id: id}
+	gs.byGoid[goid()] = sg
+	park(site, sg, nil)
+}
+
+// Yield is a scheduling point: after a go statement, before a channel send.
 func Yield(site string) {
 	s.mu.Lock()
 	if !gs.active {
 		s.mu.Unlock()
 		return
 	}
-	gs.nextID++
-	id := gs.nextID
+	park(site, gs.me(), nil)
+}
+
+type locker interface {
+	Lock()
+	TryLock() bool
+}
+
+type rlocker interface {
+	RLock()
+	TryRLock() bool
+}
+
+// Lock replaces mu.Lock() for sync.Mutex and sync.RWMutex.
+func Lock(site string, m locker) {
+	for {
+		s.mu.Lock()
+		if !gs.active {
+			s.mu.Unlock()
+			m.Lock()
+			return
+		}
+		park(site, gs.me(), nil) // scheduling point: who enters the critical section next
+		if m.TryLock() {
+			return
+		}
+		s.mu.Lock()
+		if !gs.active {
+			s.mu.Unlock()
+			m.Lock()
+			return
+		}
+		park(site, gs.me(), m) // not eligible until somebody unlocks m
+	}
+}
+
+// RLock replaces mu.RLock().
+func RLock(site string, m rlocker) {
+	for {
+		s.mu.Lock()
+		if !gs.active {
+			s.mu.Unlock()
+			m.RLock()
+			return
+		}
+		park(site, gs.me(), nil)
+		if m.TryRLock() {
+			return
+		}
+		s.mu.Lock()
+		if !gs.active {
+			s.mu.Unlock()
+			m.RLock()
+			return
+		}
+		park(site, gs.me(), m)
+	}
+}
+
+func released(m any) {
+	s.mu.Lock()
+	if gs.active {
+		for _, p := range gs.parked {
+			if p.waitsOn == m {
+				p.waitsOn = nil
+			}
+		}
+		select {
+		case gs.wake <- struct{}{}:
+		default:
+		}
+	}
 	s.mu.Unlock()
-	Park(id, site)
+}
+
+// Unlock replaces mu.Unlock().
+func Unlock(m interface{ Unlock() }) {
+	m.Unlock()
+	released(m)
+}
+
+// RUnlock replaces mu.RUnlock().
+func RUnlock(m interface{ RUnlock() }) {
+	m.RUnlock()
+	released(m)
 }
 
 func scheduler() {
 	for {
 		synctestWait()
 		s.mu.Lock()
-		if len(gs.parked) == 0 {
+		var elig []*parkedG
+		for _, p := range gs.parked {
+			if p.waitsOn == nil {
+				elig = append(elig, p)
+			}
+		}
+		if len(elig) == 0 && len(gs.parked) > 0 {
+			// only mutex waiters are left: the holder is not one of ours (or
+			// the code under test deadlocked); let them all retry once
+			for _, p := range gs.parked {
+				p.waitsOn = nil
+			}
+			elig = append(elig, gs.parked...)
+			gs.retries++
+			if gs.retries > 1000 {
+				// a genuine lock cycle: stop scheduling, the bubble reports the deadlock
+				gs.parked = nil
+				s.mu.Unlock()
+				<-gs.done
+				return
+			}
+		}
+		if len(elig) == 0 {
 			if gs.fin {
 				s.mu.Unlock()
 				return
@@ -109,12 +271,17 @@ func scheduler() {
 			}
 			continue
 		}
-		sort.Slice(gs.parked, func(a, b int) bool { return gs.parked[a].id < gs.parked[b].id })
-		n := len(gs.parked)
+		sort.Slice(elig, func(a, b int) bool {
+			if elig[a].id != elig[b].id {
+				return elig[a].id < elig[b].id
+			}
+			return elig[a].seq < elig[b].seq
+		})
+		n := len(elig)
 		mode := s.cfg.GoMode
 		idx := 0
 		if n >= 2 {
-			v := s.decide("gosched", gs.parked[0].site, n, func(r *rng) uint64 {
+			v := s.decide("gosched", elig[0].site, n, func(r *rng) uint64 {
 				m := mode
 				if m == "mix" {
 					m = []string{"fifo", "lifo", "random", "random"}[r.intn(4)]
@@ -131,7 +298,8 @@ func scheduler() {
 			if idx != 0 {
 				s.rec.Fired["gosched"]++
 			}
-			st := s.rec.Sites["gosched:"+gs.parked[0].site]
+			key := "gosched:" + elig[0].site
+			st := s.rec.Sites[key]
 			st.Execs++
 			st.Execs2++
 			if idx != 0 {
@@ -140,10 +308,15 @@ func scheduler() {
 			if n > st.MaxKeys {
 				st.MaxKeys = n
 			}
-			s.rec.Sites["gosched:"+gs.parked[0].site] = st
+			s.rec.Sites[key] = st
 		}
-		p := gs.parked[idx]
-		gs.parked = append(gs.parked[:idx], gs.parked[idx+1:]...)
+		p := elig[idx]
+		for i, q := range gs.parked {
+			if q == p {
+				gs.parked = append(gs.parked[:i], gs.parked[i+1:]...)
+				break
+			}
+		}
 		s.mu.Unlock()
 		close(p.ch)
 	}
@@ -171,7 +344,8 @@ func RunWorld(f func()) (deadlock string) {
 	}()
 	synctestRun(func() {
 		s.mu.Lock()
-		gs = goState{active: true, wake: make(chan struct{}, 1), done: make(chan struct{})}
+		gs = goState{active: true, wake: make(chan struct{}, 1), done: make(chan struct{}), byGoid: map[uint64]*simG{}}
+		gs.byGoid[goid()] = &simG{id: 0}
 		done := gs.done
 		s.mu.Unlock()
 		go scheduler()
